@@ -47,6 +47,13 @@ pub trait Adapter {
     fn mutate_proof(_kind: &str, _pf: &Pf<Self>, _args: &[String]) -> Option<Pf<Self>> {
         None
     }
+    /// C08: a*c1 + b*c2 computed with the curve library (None for hash-based commitments)
+    fn comm_lin(_a: Self::F, _c1: &Cm<Self>, _b: Self::F, _c2: &Cm<Self>) -> Option<Cm<Self>> { None }
+    fn comm_is_identity(_c: &Cm<Self>) -> Option<bool> { None }
+    /// schemes without a non-hiding mode (Hyrax): commitments are compared through their opening (state)
+    fn always_blinded() -> bool { false }
+    /// C08: independent recomputation of a hash-based commitment from the polynomial
+    fn reference_commitment(_ck: &CK<Self>, _p: &Self::P, _cm: &Cm<Self>, _st: &St<Self>) -> Option<bool> { None }
     /// constructive attack from the property's catalogue: returns a crafted proof and the FALSE values it claims
     fn attack(_kind: &str, _ck: &CK<Self>, _polys: &[&LabeledPolynomial<Self::F, Self::P>],
               _comms: &[&LabeledCommitment<Cm<Self>>], _states: &[&St<Self>], _pt: &Pt<Self>,
@@ -544,5 +551,52 @@ pub fn roundtrip<T: CanonicalSerialize + CanonicalDeserialize>(x: &T) -> bool {
     match T::deserialize_compressed(&b[..]) {
         Ok(y) => ser(&y) == b,
         Err(_) => false,
+    }
+}
+
+
+/// C08 flow: p, q, a*p+b*q, a re-encoding of p, the zero polynomial - all committed without hiding under one bound
+pub fn run_c08<A: Adapter>(c: &Case, out: &mut Out)
+where
+    Pt<A>: Clone + Ord + core::fmt::Debug,
+{
+    let pp = A::setup(c);
+    out.obs1("setup", "S", pp.class());
+    let pp = match pp.ok() { Some(p) => p, None => return };
+    let bounds: Option<Vec<usize>> = match c.str1("bounds") { "none" => None, _ => Some(c.usizes("bounds")) };
+    let tr = guard_any(|| A::PC::trim(&pp, c.usize1("supported_degree"), c.usize1("supported_hiding"), bounds.as_deref()));
+    out.obs1("trim", "S", tr.class());
+    let (ck, _vk) = match tr.ok() { Some(x) => x, None => return };
+    let nv = opt_usize(c.str1("num_vars"));
+    let bound = opt_usize(c.str1("bound"));
+    let names = ["p", "q", "r", "pv", "zero"];
+    let polys: Vec<LabeledPolynomial<A::F, A::P>> = (0..5)
+        .map(|i| LabeledPolynomial::new(names[i].to_string(), A::make_poly(c.get(&format!("poly.{}", i)), nv), bound, None))
+        .collect();
+    let mut rng = CountingRng::new(1);
+    let cm = guard_any(|| A::PC::commit(&ck, polys.iter(), Some(&mut rng)));
+    out.obs1("commit", "S", cm.class());
+    let (comms, _states) = match cm.ok() { Some(x) => x, None => return };
+    out.obs1("rng_bytes", "N", rng.bytes.to_string());
+    let a: A::F = f_from_str(c.str1("a"));
+    let b: A::F = f_from_str(c.str1("b"));
+    let cs: Vec<&Cm<A>> = comms.iter().map(|x| x.commitment()).collect();
+    for i in 0..5 { out.obs1(&format!("comm.{}", i), "H", sha_hex(&ser(cs[i]))); A::comm_obs(i, cs[i], &_states[i], out); }
+    if let Some(l) = A::comm_lin(a, cs[0], b, cs[1]) {
+        out.obs1("additive", "S", if ser(&l) == ser(cs[2]) { "holds".into() } else { "fails".into() });
+    }
+    if let Some(z) = A::comm_is_identity(cs[4]) { out.obs1("zero_is_identity", "S", if z { "yes".into() } else { "no".into() }); }
+    if !A::always_blinded() { out.obs1("repr_invariant", "S", if ser(cs[3]) == ser(cs[0]) { "holds".into() } else { "fails".into() }); }
+    // determinism: a second commit gives the same bytes
+    let mut rng2 = CountingRng::new(2);
+    if let Some((c2, _)) = guard_any(|| A::PC::commit(&ck, polys.iter(), Some(&mut rng2))).ok() {
+        if !A::always_blinded() { out.obs1("deterministic", "S", if (0..5).all(|i| ser(c2[i].commitment()) == ser(cs[i])) { "yes".into() } else { "no".into() }); }
+    }
+    // different polynomials -> different commitments (p vs q are different unless the generator says otherwise)
+    out.obs1("p_q_equal", "S", if ser(cs[0]) == ser(cs[1]) { "equal".into() } else { "differ".into() });
+    for i in 0..5 {
+        if let Some(ok) = A::reference_commitment(&ck, polys[i].polynomial(), cs[i], &_states[i]) {
+            out.obs1(&format!("reference.{}", i), "S", if ok { "matches".into() } else { "differs".into() });
+        }
     }
 }
